@@ -149,6 +149,25 @@ def forged_scripts(rng, tier):
             L.append(pkt_op("unprotect", 2, f"{hexb(bytes(body) + mki)}&{t:x}:0", cap=rng.choice([tot, len(body), max(len(body) - 1, 0), hdr]), mode=rng.choice([0, 1, 2])))
         L.append("dealloc 2")
         out.append((f"forged-{k}", "\n".join(L) + "\n"))
+    # cryptex without authentication: CSRC list / extension header overlapping the trailer, output capacity = plaintext size
+    for k in range(6 if tier == "quick" else 40):
+        tag = rng.choice([4, 10, 16])
+        cc = rng.choice([1, 2, 3, 15])
+        p = default_policy(rng, 0, ssrc_type=SSRC_ANY_IN, rtp=cp(taglen=tag, serv=1), rtcp=cp(), cryptex=True)
+        L = [p.line(1), "create 2 1"]
+        hdr = 12 + 4 * cc
+        for j in range(0, 5):
+            for extw in (0, 1):
+                # the packet is hdr + 4 + 4*extw + pay octets long; the last `tag` octets are (unchecked) tag
+                pay = rng.choice([0, 0, 2, tag])
+                tot = hdr + 4 + 4 * extw + pay
+                pkt = bytearray(rtp_packet(rng.randrange(1, 1 << 32), 7, payload=rand_key(rng, pay), cc=cc,
+                                           ext=(rng.choice([0xC0DE, 0xC2DE]), rand_key(rng, 4 * extw))))
+                for mode in (0, 1):
+                    cap = max(tot - tag, 0) + rng.choice([0, 0, 1])
+                    L.append(pkt_op("unprotect", 2, bytes(pkt), cap=cap, mode=mode))
+        L.append("dealloc 2")
+        out.append((f"cryptex-overlap-{k}", "\n".join(L) + "\n"))
     return out
 
 
